@@ -148,3 +148,14 @@ chk("C11",
     "record nothing; every const-only (rounding/modulo) ufunc raises ValueError on any non-constant operand and matches NumPy on constants.",
     "dtype equality across spellings is compared with floats in the replay and in C03's dtype lane; reduce/accumulate/outer ufunc methods are outside.",
     "symbolic execution of all spellings on shared symbolic operands + SMT equality of values and gradients", "DESIGN §3 C11")
+chk("C17",
+    "Symbolic part: `ndmin` is a symbolic integer in [-1,4] for tensor()/Tensor()/astensor() over 7 source kinds x copy - the library's own "
+    "comparisons on ndmin fork in the engine and every path is compared with numpy.array(..., ndmin=k); data are symbolic and an aliasing "
+    "probe writes fresh symbols into the source, deciding by term identity whether the result saw them (copy by default; copy=False / "
+    "astensor reuse memory; astensor(t) is t with graph and gradient intact). Enumeration part, on the unpatched library: makers {tensor, "
+    "Tensor, astensor, asarray} x sources x copy x dtype {None, same, other} x constant (dtype, memory sharing, write-through, pass-through "
+    "identity); copy()/astype() detached, independent and value-equal; ~600 creation-routine calls (zeros, ones, empty, full, *_like, arange, "
+    "linspace, logspace, geomspace, eye, identity) equal to NumPy in value, shape and dtype with the documented float32 default; non-real "
+    "dtypes rejected while tracking and accepted inside no_autodiff.",
+    "As DESIGN states, this property is mostly configuration enumeration; the solver-family part is the symbolic ndmin and the symbolic aliasing probe.",
+    "symbolic execution with symbolic integer option + term-identity aliasing probe; configuration enumeration for dtype/identity facts", "DESIGN §3 C17")
